@@ -175,11 +175,18 @@ def selection_equilibrium(chk, ctx, rng, n_cases, tier):
         # integrating a neutral start to equilibrium must reach the same closed form (ties the integrator to theory)
         if it % 4 == 0:
             T = 10 * nu if G < 0 else 6 * nu
-            b = eq_fs(dadi, n, nu, g, h, [80, 90, 100], T=T, from_neutral=True, tf=2e-4)
-            eb = float(np.max(np.abs(b - th)[big] / th[big]))
-            chk.stats.setdefault('sel_eq_from_neutral_err', []).append(round(eb, 5))
-            if eb > 0.03:
-                chk.fail('sel-eq:from-neutral', 'integrating a neutral start for T=%.3g under (nu=%.3g, gamma=%.3g, h=%.3g) ends %.2f%% from the closed-form equilibrium' % (T, nu, g, h, 100 * eb), inp)
+            main = th >= 1e-3 * th.max()
+            eb = []
+            for base in (80, 160):
+                b = eq_fs(dadi, n, nu, g, h, [base, base + 10, base + 20], T=T, from_neutral=True, tf=2e-4)
+                eb.append((float(np.max(np.abs(b - th)[big] / th[big])), float(np.max(np.abs(b - th)[main] / th[main]))))
+            chk.stats.setdefault('sel_eq_from_neutral_err', []).append([round(x, 5) for x in (eb[0][0], eb[1][0], eb[1][1])])
+            # calibrated on the unchanged tree: the deviation is pure grid error (7-9x smaller per doubling of pts, independent of dt);
+            # entries >= 1e-3 of the largest are within 0.3% at pts 160..180
+            if eb[1][1] > 0.015:
+                chk.fail('sel-eq:from-neutral', 'integrating a neutral start for T=%.3g under (nu=%.3g, gamma=%.3g, h=%.3g) ends %.2f%% from the closed-form equilibrium (pts 160..180, entries >= 1e-3 of the largest)' % (T, nu, g, h, 100 * eb[1][1]), inp)
+            elif eb[1][0] > 5e-3 and eb[0][0] / eb[1][0] < 2.5:   # below 0.5% the residual is time-step/finite-T error, not grid error
+                chk.fail('sel-eq:from-neutral-convergence', 'deviation from the closed-form equilibrium after integrating a neutral start does not shrink under grid refinement: %.3g at pts 80..100, %.3g at 160..180' % (eb[0][0], eb[1][0]), inp)
     chk.stats['sel_eq_worst_rel_err_pts160'] = worst
     chk.stats['sel_eq_refinement_ratios'] = [round(r, 2) for r in orders]
 
